@@ -179,7 +179,7 @@ func run() int {
 		defer os.RemoveAll(workdir)
 	}
 
-	rep := &Report{Prop: prop, Tier: tier, DB: db, Start: t0, LoadSecs: loadSecs, Unknown: map[string]bool{}, Notes: map[string]bool{}}
+	rep := &Report{Prop: prop, Tier: tier, DB: db, Start: t0, LoadSecs: loadSecs, Unknown: map[string]bool{}, Notes: map[string]bool{}, UsedContracts: map[string]bool{}}
 	var allPaths []*PathResult
 	genStart := time.Now()
 	// functions in scope: those with a clause tagged for the property, plus
@@ -222,6 +222,9 @@ func run() int {
 		}
 		for u := range ex.usedUnknown {
 			rep.Unknown[u] = true
+		}
+		for u := range ex.usedContracts {
+			rep.UsedContracts[u] = true
 		}
 		for _, p := range ex.paths {
 			for _, n := range p.Notes {
